@@ -974,7 +974,7 @@ def run(ctx):
     ctx.extra["corpus"] = {"files_available": len(files)}
     tasks = select_tasks(ctx, files)
     budget_s = ctx.budget(75, 900)
-    nproc = min(16, os.cpu_count() or 4)
+    nproc = max(1, int(os.environ.get("VERIF_C09_WORKERS") or min(16, os.cpu_count() or 4)))
     outcomes = collections.Counter()
     lean_texts = []
     t0 = time.time()
